@@ -5,7 +5,7 @@ Each mutant is a textual edit of a scratch copy of /repo's `stepup` package (out
 /verif, removed afterwards).  A property-breaking mutant must make `./check <id>` exit 1 with a
 VIOLATION line; a harmless mutant must leave it at exit 0.
 
-usage: tools/selftest.py [ids...]      (default: every property that has mutants)
+usage: tools/selftest.py [-jN] [ids...]      (default: every property that has mutants; N mutants at a time, default 6)
 """
 
 from __future__ import annotations
@@ -53,19 +53,31 @@ def run_one(m, scratch):
 
 
 def main():
-    want = set(sys.argv[1:])
+    import concurrent.futures
+
+    argv = sys.argv[1:]
+    workers = 6
+    if argv and argv[0].startswith("-j"):
+        workers = int(argv[0][2:])
+        argv = argv[1:]
+    want = set(argv)
     mutants = [m for m in load_mutants() if not want or m["property"] in want or m["name"] in want]
-    scratch = tempfile.mkdtemp(prefix="pyvc-selftest-")
     bad = 0
-    try:
-        shutil.copytree(os.path.join(REPO, "stepup"), os.path.join(scratch, "stepup"))
-        for m in mutants:
-            status, detail = run_one(m, scratch)
-            print(f"{status:11s} {m['property']} {m['name']}: {detail}")
+
+    def one(m):
+        # each mutant on its own scratch copy (outside /repo and /verif, removed afterwards)
+        scratch = tempfile.mkdtemp(prefix="pyvc-selftest-")
+        try:
+            shutil.copytree(os.path.join(REPO, "stepup"), os.path.join(scratch, "stepup"))
+            return m, run_one(m, scratch)
+        finally:
+            shutil.rmtree(scratch, ignore_errors=True)
+
+    with concurrent.futures.ThreadPoolExecutor(max_workers=workers if len(mutants) > 1 else 1) as ex:
+        for m, (status, detail) in ex.map(one, mutants):
+            print(f"{status:11s} {m['property']} {m['name']}: {detail}", flush=True)
             if status != "OK":
                 bad += 1
-    finally:
-        shutil.rmtree(scratch, ignore_errors=True)
     print(f"{len(mutants) - bad}/{len(mutants)} mutants behaved as expected")
     return 1 if bad else 0
 
